@@ -16,10 +16,13 @@ struct GVal {
     double      num;
     const char *str;
 };
-static const GVal GV[9] = {{"1", "1", 0, 1, nullptr},      {"\"1\"", "1", 1, 0, "1"},   {"2", "2", 0, 2, nullptr}, {"2.5", "2.5", 2, 2.5, nullptr},
+static const GVal GV[11] = {{"1", "1", 0, 1, nullptr},      {"\"1\"", "1", 1, 0, "1"},   {"2", "2", 0, 2, nullptr}, {"2.5", "2.5", 2, 2.5, nullptr},
                            {"true", "true", 3, 0, nullptr}, {"null", "null", 4, 0, nullptr}, {"\"x\"", "x", 1, 0, "x"},
                            // "10" and "20" have the same full hash (the hash ignores the first unit of longer keys): only the text tells them apart
-                           {"10", "10", 0, 10, nullptr}, {"20", "20", 0, 20, nullptr}};
+                           {"10", "10", 0, 10, nullptr}, {"20", "20", 0, 20, nullptr},
+                           // two reals that differ in the third decimal only: the group name is the value's text, not a rounded rendering
+                           {"0.125", "0.125", 2, 0.125, nullptr}, {"0.126", "0.126", 2, 0.126, nullptr}};
+static const int NK = 110; // element kinds: 11 grouping values x 10 shapes
 static void set_g(V &slot, const GVal &g) {
     switch (g.kind) {
         case 0: slot = SizeT64(g.num); break;
@@ -216,15 +219,15 @@ int main(int argc, char **argv) {
         const bool th = a.thorough();
         const int  n  = atoi(a.get("n", th ? "4" : "3").c_str());
         plan.engine = "langx";
-        plan.rule = "every array of <=" + std::to_string(n) + " objects, each drawn from 9 grouping values (1, \"1\", 2, 2.5, true, null, \"x\", 10, 20: equal "
+        plan.rule = "every array of <=" + std::to_string(n) + " objects, each drawn from 11 grouping values (1, \"1\", 2, 2.5, true, null, \"x\", 10, 20, 0.125, 0.126: equal "
                     "texts from different kinds meet, and 10/20 collide in the full hash) x 10 shapes (key first/last/middle, extra members of number/string/array kind, a removed "
                     "member before/after the key, a member reset to undefined, the other member removed, key only); oracle: reference "
                     "partition (first-appearance order of the textual values, members in input order minus the key), source unchanged, "
                     "<loop group> renders the same partition; distinct = distinct partitions";
-        plan.bounds = "n<=" + std::to_string(n) + " over 90 element kinds";
+        plan.bounds = "n<=" + std::to_string(n) + " over 110 element kinds";
         vx::Stage st;
         st.name   = "arrays";
-        st.chunks = 90 * 90 + 1;
+        st.chunks = NK * NK + 1;
         st.fn     = [n](int64_t chunk, vx::Ctx &ctx) {
             auto one = [&](const std::vector<int> &e) {
                 ctx.acc.count("states");
@@ -244,19 +247,19 @@ int main(int argc, char **argv) {
                     ctx.acc.sample(s);
                 }
             };
-            if (chunk == 90 * 90) {
-                for (int a0 = 0; a0 < 90; a0++) {
+            if (chunk == NK * NK) {
+                for (int a0 = 0; a0 < NK; a0++) {
                     one({a0});
                 }
                 return;
             }
-            int a0 = (int)(chunk / 90), a1 = (int)(chunk % 90);
+            int a0 = (int)(chunk / NK), a1 = (int)(chunk % NK);
             one({a0, a1});
             if (n >= 3) {
-                for (int a2 = 0; a2 < 90; a2++) {
+                for (int a2 = 0; a2 < NK; a2++) {
                     one({a0, a1, a2});
                     if (n >= 4) {
-                        for (int a3 = 0; a3 < 90; a3++) {
+                        for (int a3 = 0; a3 < NK; a3++) {
                             one({a0, a1, a2, a3});
                         }
                     }
